@@ -26,7 +26,8 @@ namespace internal {
 template <typename T>
 constexpr auto trunc_int(T const x) noexcept -> T
 {
-    return (T(static_cast<llint_t>(x)));
+    // a result of zero keeps the sign of the argument: trunc(-0.5) is -0.0
+    return (x < T(0) && T(static_cast<llint_t>(x)) == T(0)) ? -T(0) : T(static_cast<llint_t>(x));
 }
 
 template <typename T>
@@ -37,9 +38,9 @@ constexpr auto trunc_check(T const x) noexcept -> T
                   // +/- infinite
             !is_finite(x) ? x
                           :
-                          // signed-zero cases
-            etl::numeric_limits<T>::epsilon() > abs(x) ? x
-                                                       :
+                          // signed zeros, and values without a fractional part (keeps the conversion below in range)
+            (x == T(0) || abs(x) >= T(1) / etl::numeric_limits<T>::epsilon()) ? x
+                                                                              :
                                                        // else
             trunc_int(x)
     );
